@@ -2,7 +2,7 @@ SPECIFICATION Spec
 CONSTANTS
   Cls = {"P", "C", "N", "I", "T"}
   MsgKinds = {"explicit", "kwtemplate", "class", "kwnested", "kwcustom", "kwattr", "kwhostile"}
-  Outs = {"T", "F", "CR", "MR"}
+  Outs = {"T", "F", "CR", "MR", "CX"}
   DelayCls = {"P", "C"}
   Vals = {"o1", "o2"}
   Depth = 9
